@@ -216,6 +216,20 @@ def _expr_of_body(body: List[ast.stmt]) -> Optional[ast.expr]:
     for i, s in enumerate(body):
         if isinstance(s, ast.Assign) and len(s.targets) == 1 and isinstance(s.targets[0], ast.Name) and s.targets[0].id not in binds:
             binds[s.targets[0].id] = _subst(s.value, binds)
+        elif (
+            isinstance(s, ast.Assign)
+            and len(s.targets) == 1
+            and isinstance(s.targets[0], (ast.Tuple, ast.List))
+            and isinstance(s.value, (ast.Tuple, ast.List))
+            and len(s.targets[0].elts) == len(s.value.elts)
+            and all(isinstance(t, ast.Name) and t.id not in binds for t in s.targets[0].elts)
+            and len({t.id for t in s.targets[0].elts}) == len(s.targets[0].elts)
+            and not any(t.id in _names_used(v) for t in s.targets[0].elts for v in s.value.elts)
+        ):
+            # `a, b = x, y` of fresh names that the right-hand sides do not read
+            vals = [_subst(v, binds) for v in s.value.elts]
+            for t, v in zip(s.targets[0].elts, vals):
+                binds[t.id] = v
         elif isinstance(s, ast.If) and not s.orelse and len(s.body) == 1 and isinstance(s.body[0], ast.Return) and s.body[0].value is not None:
             steps.append((_subst(s.test, binds), _subst(s.body[0].value, binds)))
         elif isinstance(s, ast.If) and len(s.body) == 1 and isinstance(s.body[0], ast.Return) and s.body[0].value is not None and i == len(body) - 1:
@@ -347,6 +361,18 @@ def _split_parallel(target, value) -> List[ast.stmt]:
     return [ast.Assign(targets=[target], value=value)]
 
 
+_NEG_OPS = {ast.Is: ast.IsNot, ast.IsNot: ast.Is, ast.Eq: ast.NotEq, ast.NotEq: ast.Eq, ast.In: ast.NotIn, ast.NotIn: ast.In, ast.Lt: ast.GtE, ast.GtE: ast.Lt, ast.Gt: ast.LtE, ast.LtE: ast.Gt}
+
+
+def _negate(test):
+    """`not (a is not b)` is `a is b`: one spelling for the negation of a single comparison"""
+    if isinstance(test, ast.UnaryOp) and isinstance(test.op, ast.Not):
+        return test.operand
+    if isinstance(test, ast.Compare) and len(test.ops) == 1 and type(test.ops[0]) in _NEG_OPS and not isinstance(test.ops[0], (ast.Lt, ast.GtE, ast.Gt, ast.LtE)):
+        return ast.Compare(left=test.left, ops=[_NEG_OPS[type(test.ops[0])]()], comparators=test.comparators)
+    return ast.UnaryOp(op=ast.Not(), operand=test)
+
+
 def _split_parallel_any(target, value) -> Optional[List[ast.stmt]]:
     """`a, b = x, y` and `a, b = (x1, y1) if c else (x2, y2)` as a sequence of single assignments, in an order in
     which no right-hand side reads a name assigned before it (self-assignments dropped); None when there is no such
@@ -363,7 +389,7 @@ def _split_parallel_any(target, value) -> Optional[List[ast.stmt]]:
             if isinstance(a, ast.Constant) and isinstance(b, ast.Constant) and a.value is True and b.value is False:
                 rhs.append(copy.deepcopy(value.test))
             elif isinstance(a, ast.Constant) and isinstance(b, ast.Constant) and a.value is False and b.value is True:
-                rhs.append(ast.UnaryOp(op=ast.Not(), operand=copy.deepcopy(value.test)))
+                rhs.append(_negate(copy.deepcopy(value.test)))
             elif ast.dump(a) == ast.dump(b):
                 rhs.append(a)
             else:
@@ -976,7 +1002,7 @@ class ModuleNormalizer:
                         if isinstance(a, ast.Constant) and isinstance(b, ast.Constant) and a.value is True and b.value is False:
                             v = copy.deepcopy(s_.test)
                         elif isinstance(a, ast.Constant) and isinstance(b, ast.Constant) and a.value is False and b.value is True:
-                            v = ast.UnaryOp(op=ast.Not(), operand=copy.deepcopy(s_.test))
+                            v = _negate(copy.deepcopy(s_.test))
                         else:
                             v = ast.IfExp(test=copy.deepcopy(s_.test), body=a, orelse=b)
                         comps.append((nm, v))
